@@ -191,7 +191,7 @@ int _GD_Include(DIRFILE *D, struct parser_state *p, const char *ename,
     char **ref_name, int parent, const char *pxin, const char *sxin,
     int immediate)
 {
-  int i, newns = 0;
+  int i, newns = 0, created = 0;
   int me = D->n_fragment;
   struct parser_state oldp = *p;
   int dirfd = -1, pop_ns = 0;
@@ -302,8 +302,14 @@ int _GD_Include(DIRFILE *D, struct parser_state *p, const char *ename,
   }
 
   /* fstat the file and record the mtime */
-  if (fstat(i, &statbuf) == 0)
+  if (fstat(i, &statbuf) == 0) {
     mtime = statbuf.st_mtime;
+    /* A fragment we have just created is empty: it must be written out, or
+     * the settings it has in memory (those asked for by the caller) would be
+     * replaced by whatever its parent has when the dirfile is next opened */
+    if ((p->flags & GD_CREAT) && statbuf.st_size == 0)
+      created = 1;
+  }
 
   /* If we got here, we managed to open the included file; parse it */
   ptr = _GD_Realloc(D, D->fragment, (++D->n_fragment) * sizeof(D->fragment[0]));
@@ -319,7 +325,7 @@ int _GD_Include(DIRFILE *D, struct parser_state *p, const char *ename,
   D->fragment[me].cname = temp_buf1;
   D->fragment[me].ename = _GD_Strdup(D, ename);
   D->fragment[me].enc_data = NULL;
-  D->fragment[me].modified = 0;
+  D->fragment[me].modified = created;
   D->fragment[me].parent = parent;
   D->fragment[me].dirfd = dirfd;
   D->fragment[me].encoding = p->flags & GD_ENCODING;
